@@ -578,6 +578,20 @@ func ruleBoundedLength(c *chk.Ctx) {
 				lo = lo && lowerOnFinalType(f, taint, x.Block())
 				c.Check(lo && up, "PROV.length", f, "allocation sized by a parsed length", x.Pos(), "the parsed length is bounded below by 0 and above by a constant where it sizes an allocation",
 					fmt.Sprintf("a length parsed from the stream sizes an allocation without a %s bound: an absurd or overflowing Content-Length would panic in makeslice or exhaust memory", missing(lo, up)))
+			case *ssa.Call:
+				// a buffer grown (or a slice grown) to the parsed length allocates like make does
+				if !ir.IsCallTo(&x.Call, "(*bytes.Buffer).Grow", "(*strings.Builder).Grow") && !strings.HasPrefix(ir.CalleeName(&x.Call), "slices.Grow") {
+					return
+				}
+				n := x.Call.Args[len(x.Call.Args)-1]
+				if !taint[n] {
+					return
+				}
+				nSinks++
+				lo, up := boundsAt(x, 0)
+				lo = lo && lowerOnFinalType(f, taint, x.Block())
+				c.Check(lo && up, "PROV.length", f, "allocation sized by a parsed length", x.Pos(), "the parsed length is bounded below by 0 and above by a constant where it sizes an allocation",
+					fmt.Sprintf("a length parsed from the stream sizes an allocation (Grow) without a %s bound: an absurd Content-Length would panic or exhaust memory before a single payload byte has arrived", missing(lo, up)))
 			case *ssa.Slice:
 				if (x.High == nil || !taint[x.High]) && (x.Low == nil || !taint[x.Low]) {
 					return
@@ -1100,6 +1114,16 @@ func ruleFullReads(c *chk.Ctx) {
 				return
 			}
 			n++
+			if full && ir.IsCallTo(cc, "io.ReadAtLeast") && len(cc.Args) == 3 {
+				// ReadAtLeast may read more than the minimum when the buffer is longer: the buffer
+				// handed over must be cut to exactly that minimum, or bytes of the next record
+				// would be consumed with this one
+				exact := false
+				if sl, isSl := cc.Args[1].(*ssa.Slice); isSl && sl.High != nil && (sl.High == cc.Args[2] || ir.SameValue(sl.High, cc.Args[2])) {
+					exact = true
+				}
+				c.Check(exact, "PAIR.fullread", f, "read stops at the record's end", call.Pos(), "the buffer given to ReadAtLeast is cut to the minimum", "ReadAtLeast is given a buffer longer than the record (not buf[:n] with n the minimum): when the next record's bytes are already available they are read into the spare room and lost to the next Recv")
+			}
 			if full {
 				// its error must be returned on the err != nil edge
 				okErr := false
